@@ -160,7 +160,7 @@ def C02(tier):
     c = Check("C02", tier)
     n = sz(tier, 24 * 40_000, 24 * 1_000_000)
     count = per_shard(n)
-    p = [4097, sz(tier, 1500, 1500)]
+    p = [4097, sz(tier, 1500, 1500), 0, sz(tier, 6, 24)]  # p3: the first cases of every shard are arrays of > 2^20 elements
     runs = [c.spec("array-rel", "rel", "drv_array", "c02", count, params=p)]
     if HAVE_NATIVE:
         runs.append(c.spec("array-native", "native", "drv_array", "c02", count, params=p))
@@ -171,16 +171,22 @@ def C02(tier):
     runs.append(c.spec("array-clang", "clang", "drv_array", "c02", count, shards=[6, 7], params=p))
     runs.append(c.spec("array-sse41", "sse41", "drv_array", "c02", count, shards=[8, 9, 10, 11], params=p))
     c.compare_digests(runs, "encoded bytes of every array (scalar vs SIMD-enabled vs sanitised builds)")
+    # giant arrays (16.7M-50M elements), the first cases of each shard, pinned flags and SIMD build
+    gp = sz(tier, 2, 6)
+    c.spec("array-giant", "rel", "drv_array", "c02", gp, params=[4097, 0, 0, gp, 1], timeout=3000)
+    if HAVE_NATIVE and tier == "thorough":
+        c.spec("array-giant-native", "native", "drv_array", "c02", gp, params=[4097, 0, 0, gp, 1], timeout=3000)
     for name in ARRAY_CODECS:
         c.require("codec." + name, c.stat("codec." + name), 1000)
     c.require("random_access_probes", c.stat("c02_random_access_probes"), 100000)
     c.require("for_block_reads", c.stat("c02_block_reads"), 10000)
     c.require("bp128_block32_cases", c.stat("c02_block32_cases"), 200)
+    c.require("arrays_over_2^20_elements", c.stat("c02_huge_arrays"), 20)
     c.assumptions = ["decoders are given the original element count (formats without a terminator)",
                      "dictionary inputs have at most 2^20 distinct values (decoder's documented cap)"]
     c.finish(c.stat("cases"), c.extra["per_cfg"].get("distinct_nontrivial@rel", 0),
              "one (codec variant, array) per case, codec round-robin over %d variants; arrays from 15 content models x "
-             "boundary-straddling lengths (<=4097, 1 in 4000 cases 10k-68k); encoded bytes are copied to an exact-size heap "
+             "boundary-straddling lengths (<=4097, 1 in 1500 cases 8k-68k, the first cases of every shard 1.05M-3M elements with a unique minimum and maximum at random positions); encoded bytes are copied to an exact-size heap "
              "block (ASan) or followed by two different garbage tails (other configs) before decoding; distinct = "
              "distinct (codec, array) hash, non-trivial = length>=2 and not all equal; counted on the rel configuration" % len(ARRAY_CODECS))
 
@@ -194,6 +200,9 @@ def C03(tier):
     c.spec("bound-rel", "rel", "drv_array", "c03", count, params=p[:2] + [1])  # incl. the runs of >= 2^24 identical values
     c.spec("bound-dbg", "dbg", "drv_array", "c03", count, shards=[8, 9], params=p)
     other_builds(c, "bound", "drv_array", "c03", count, params=p)
+    # giant arrays (16.7M-50M elements: past 2^24 and past 2^32/100..2^32/90 elements), the first p3 cases of each shard
+    gp = sz(tier, 2, 8)
+    c.spec("bound-giant", "rel", "drv_array", "c03", gp, params=p[:2] + [0, gp], timeout=3000)
     nf = sz(tier, 300_000, 10_000_000)
     c.spec("float-bound-asan", "asan", "drv_float", "c03", per_shard(nf), shards=[0, 1, 2, 3])
     c.spec("float-bound-rel", "rel", "drv_float", "c03", per_shard(nf))
@@ -223,21 +232,23 @@ def C13(tier):
     c = Check("C13", tier)
     n = sz(tier, 20 * 30_000, 20 * 600_000)
     count = per_shard(n)
-    c.spec("cap-asan", "asan", "drv_array", "c13", count, shards=sz(tier, list(range(8)), list(range(8))), params=[1000])
-    c.spec("cap-asanR", "asanR", "drv_array", "c13", count, shards=[8, 9, 10, 11], params=[1000])
-    c.spec("cap-rel", "rel", "drv_array", "c13", count, params=[1000])
-    other_builds(c, "cap", "drv_array", "c13", count, params=[1000])
+    c.spec("cap-asan", "asan", "drv_array", "c13", count, shards=sz(tier, list(range(8)), list(range(8))), params=[1000, 300])
+    c.spec("cap-asanR", "asanR", "drv_array", "c13", count, shards=[8, 9, 10, 11], params=[1000, 300])
+    c.spec("cap-rel", "rel", "drv_array", "c13", count, params=[1000, 300])
+    other_builds(c, "cap", "drv_array", "c13", count, params=[1000, 300])
     capcodecs = ["for", "for.batch", "group", "dict.into", "rle", "rle.header", "elias.gamma", "elias.delta", "bp128.32", "bp128.64",
                  "bp128.delta32", "bp128.delta64", "adaptive.DELTA", "adaptive.FOR", "adaptive.PFOR", "adaptive.DICT",
                  "adaptive.BITMAP", "adaptive.TAGGED"]
     for name in capcodecs:
         c.require("codec." + name, c.stat("codec." + name), 500)
+    c.require("decodes_with_stale_meta", c.stat("c13_decodes_with_stale_meta"), 10000)
+    c.require("long_arrays", c.stat("c13_long_arrays"), 200)
     c.require("capacity0", c.stat("c13_capacity0"), 10000)
     c.require("refused", c.stat("c13_refused"), 10000)
     c.require("prefix", c.stat("c13_prefix"), 10000)
     c.assumptions = ["oracle: r == 0, or r <= capacity and the first r outputs equal the original prefix; capacities never exceed the encoded count"]
     c.finish(c.stat("c13_decodes"), c.extra["per_cfg"].get("distinct_nontrivial@rel", 0),
-             "(valid encoding, capacity) pairs: capacities {0,1,2,n/2,n-1,n,random, 127..129 and n-128 for block codecs}; output "
+             "(valid encoding, capacity) pairs (arrays up to 1000 elements, 1 in 300 8k-68k; adaptive decoders also with a garbage or stale output meta): capacities {0,1,2,n/2,n-1,n,random, 127..129 and n-128 for block codecs}; output "
              "is an exact-size heap block of `capacity` elements under ASan (malloc(0) for 0) and capacity + 4 KiB verified guard "
              "elsewhere; non-trivial = capacity < n; counted on rel")
 
@@ -251,6 +262,10 @@ def C16(tier):
     c.spec("meta-asan", "asan", "drv_array", "c16", count, shards=[0, 1, 2, 3], params=p)
     c.spec("meta-msan", "msan", "drv_array", "c16", count, shards=[4, 5], params=p)
     other_builds(c, "meta", "drv_array", "c16", count, shards=(6, 7), params=p)
+    if tier == "thorough":
+        # one array of 2^29+k elements in 8-byte slots: the value section alone exceeds 4 GiB (about 20 GiB of memory, a few
+        # minutes; skipped with a note when less than 30 GiB is available)
+        c.spec("meta-colossal", "rel", "drv_array", "c16", 1, nshards=1, shards=[0], params=[4097, 0, 0, 0, 1], sparam="pfor.95", timeout=3000)
     nf = sz(tier, 200_000, 5_000_000)
     c.spec("float-meta-rel", "rel", "drv_float", "c16", per_shard(nf))
     c.spec("float-meta-asan", "asan", "drv_float", "c16", per_shard(nf), shards=[0, 1])
@@ -259,6 +274,10 @@ def C16(tier):
         c.require(k, c.stat(k), 100)
     c.require("float_consumed_checks", c.stat("c16_float_consumed_checked"), 10000)
     c.require("giant_run_cases", c.stat("giant_run_cases"), 4, "(runs of 2^24 and more identical values)")
+    if tier == "thorough":
+        if c.stat("c16_colossal_arrays") < 1:
+            c.notes.append("the > 4 GiB PFOR case was skipped: less than 30 GiB of memory available")
+        c.extra["colossal_arrays"] = c.stat("c16_colossal_arrays")
     c.assumptions = ["in/out metadata structs (FOR encode, PFOR decode) are passed zeroed, as the API requires; output-only structs are poisoned with 0xEE before the call"]
     c.finish(c.stat("cases"), c.extra["per_cfg"].get("distinct_nontrivial@rel", 0),
              "every metadata-reporting codec variant on the array mixture with emphasis on counts whose tagged length changes "
@@ -271,7 +290,7 @@ def C06(tier):
     c = Check("C06", tier)
     n = sz(tier, 120_000, 1_500_000)
     count = per_shard(n)
-    p = [sz(tier, 1500, 4097), sz(tier, 2500, 1500), 0]
+    p = [sz(tier, 1500, 4097), sz(tier, 2500, 1500), 0, sz(tier, 3, 12)]  # p3: worst-case-width arrays of 65k-200k elements per shard
     c.spec("adaptive-rel", "rel", "drv_array", "c06", count, params=p, timeout=3000)
     c.spec("adaptive-asan", "asan", "drv_array", "c06", count, shards=sz(tier, [0, 1, 2, 3], [0, 1, 2, 3]), params=p, timeout=3000)
     c.spec("adaptive-dbg", "dbg", "drv_array", "c06", count, shards=[4], params=p, timeout=3000)
@@ -285,13 +304,15 @@ def C06(tier):
     c.require("sampled_uniqueness_path", c.stat("c06_sampled_uniqueness_path"), 10)
     c.require("payload_over_1MiB", c.stat("c06_payload_over_1MiB"), 1)
     c.require("distinct_leaf_guard_cells", c.stat("c06_distinct_leaf_guard_cells"), 30)
+    c.require("wide_long_arrays", c.stat("c06_wide_long_arrays"), 40)
     for f in ("DELTA", "FOR", "PFOR", "DICT", "BITMAP", "TAGGED"):
         c.require("forced." + f, c.stat("adaptive.forced." + f), 500)
     c.assumptions = ["forced BITMAP only for strictly increasing values below 65536; dictionary inputs <= 2^20 distinct values"]
     c.finish(c.stat("c06_arrays"), c.extra["per_cfg"].get("distinct_nontrivial@rel", 0),
              "arrays generated per decision-tree leaf and guard (unique ratio around 0.15/0.9, density around 0.05, count around "
              "10000, ascending/descending/unsorted, one duplicate, maxValue 65535/65536, avgDelta around 1000 and minValue/10, "
-             "outlier ratio around 5%, range around 100n and near 2^64, PFOR marker ranges, periodic) plus the general mixture; "
+             "outlier ratio around 5%, range around 100n and near 2^64, PFOR marker ranges, periodic) plus the general mixture and, per shard, "
+             "arrays of 65535-200001 distinct values nearly all >= 2^56 (worst-case width at the count thresholds); "
              "each array: automatic encode/decode, then each forced encoding whose domain contains it; leaf and guard outcomes "
              "observed through meta.encodingType and varintAdaptiveAnalyze; distinct by array hash on rel")
 
@@ -301,7 +322,7 @@ def C07(tier):
     c = Check("C07", tier)
     n = sz(tier, 300_000, 12_000_000)
     count = per_shard(n)
-    p = [sz(tier, 300, 600), 20000]
+    p = [sz(tier, 300, 600), sz(tier, 1500, 5000)]  # p1: one case in this many is a long array (32k-200k elements)
     runs = [c.spec("float-rel", "rel", "drv_float", "c07", count, params=p)]
     runs.append(c.spec("float-asan", "asan", "drv_float", "c07", count, shards=[0, 1, 2, 3], params=p))
     runs.append(c.spec("float-dbg", "dbg", "drv_float", "c07", count, shards=[4, 5], params=p))
@@ -315,6 +336,7 @@ def C07(tier):
     for k in ("nan", "inf", "subnormal", "zero"):
         c.require("special_" + k, c.stat("c07_special_" + k), 1000)
     c.require("auto_requests", c.stat("c07_auto_requests"), 10000)
+    c.require("long_arrays", c.stat("c07_long_arrays"), 100)
     c.require("rounded_to_infinity", c.stat("c07_rounded_to_infinity"), 1)
     c.assumptions = ["oracle is the published bound 2^-mantissa_bits (no reference quantiser: any rounding rule inside the bound is accepted)",
                      "infinity accepted only when |x|(1+bound) > DBL_MAX"]
@@ -325,7 +347,7 @@ def C07(tier):
              "non-zero mantissa; counted on rel")
 
 
-WRAP = dict(extra_src=("wrap_alloc.c",), extra_ld=("-Wl,--wrap=malloc,--wrap=calloc,--wrap=realloc,--wrap=free",))
+WRAP = dict(extra_src=("wrap_alloc.c",), extra_ld=("-Wl,--wrap=malloc,--wrap=calloc,--wrap=realloc,--wrap=free,--wrap=aligned_alloc,--wrap=posix_memalign,--wrap=memalign,--wrap=valloc,--wrap=pvalloc,--wrap=reallocarray,--wrap=strdup,--wrap=strndup",))
 
 
 # --------------------------------------------------------------------------- C08
@@ -343,6 +365,8 @@ def C08(tier):
     c.require("long_range_on_nonempty", c.stat("c08_long_range_on_nonempty"), 200)
     c.require("long_range_on_runs_container", c.stat("c08_long_range_on_runs_container"), 20)
     c.require("set_algebra_ops", c.stat("c08_set_algebra_ops"), 5000)
+    c.require("universe_sized_addmany_batches", c.stat("c08_universe_sized_addmany_batches"), 200)
+    c.require("full_universe_states", c.stat("c08_full_universe_states"), 20)
     c.require("multi_run_containers", c.stat("c08_multi_run_containers"), 500, "(run containers with several runs, obtained by deserialising a run-length serialisation)")
     c.assumptions = ["ranges are half-open [min,max) with max <= 65535 (uint16_t API)",
                      "leak monitor: every block allocated during a history (link-time malloc wrapper) must be freed once all objects are freed"]
@@ -623,7 +647,7 @@ def C17(tier):
 
 
 # --------------------------------------------------------------------------- C18
-OOM_KW = dict(extra_src=("wrap_alloc.c",), extra_ld=("-Wl,--wrap=malloc,--wrap=calloc,--wrap=realloc,--wrap=free", "-no-pie"))
+OOM_KW = dict(extra_src=("wrap_alloc.c",), extra_ld=("-Wl,--wrap=malloc,--wrap=calloc,--wrap=realloc,--wrap=free,--wrap=aligned_alloc,--wrap=posix_memalign,--wrap=memalign,--wrap=valloc,--wrap=pvalloc,--wrap=reallocarray,--wrap=strdup,--wrap=strndup", "-no-pie"))
 C18_FILES = ["varintDict.c", "varintPFOR.c", "varintFloat.c", "varintAdaptive.c", "varintBitmap.c"]
 
 
@@ -641,7 +665,7 @@ def _alloc_sites_in_source():
         for i, l in enumerate(lines, 1):
             if re.match(r"#ifdef VARINT_\w+_TEST", l):
                 in_test = True
-            if re.search(r"\b(malloc|calloc|realloc)\s*\(", l) and not l.strip().startswith(("/*", "*", "//")) and not in_test:
+            if re.search(r"\b(malloc|calloc|realloc|aligned_alloc|posix_memalign|memalign|valloc|pvalloc|reallocarray|strdup|strndup)\s*\(", l) and not l.strip().startswith(("/*", "*", "//")) and not in_test:
                 sites.append((f, i))
     return sites
 
